@@ -75,6 +75,14 @@ CLAIMS = {
              "is_compatible(<its own type id>, pattern), every ProgramUpdate carrying tables recomputed by the compute_* functions from the FULL "
              "merged program, update_program replacing them. No type test is evaluated; soundness of is_compatible is C09.",
         design="§3 C08", technique="static analysis: HIR pattern matrices, MIR value-source slices and guarded reachability"),
+    "C12": dict(
+        text="Decides the TOTALITY half: an interval abstract interpretation with branch refinement, relational >= facts, range-iterator payloads, "
+             "return summaries and call-site parameter ranges over the MIR of every function reachable from the 45 registered pure builtins "
+             "discharges overflow / division / bounds asserts, narrowing casts and allocation sizes; guarded indexing and checked_mul guards are "
+             "recognised; the remainder is held to reviewed per-(function, kind) ceilings so any new panic- or truncation-capable construct is "
+             "reported. Plus the MAX_BINARY_SIZE choke point and encapsulation of the rope representation. Agreement with a reference model "
+             "(value level) is NOT decided.",
+        design="§3 C12", technique="static analysis: interval abstract interpretation over MIR + sink census with reviewed residual table"),
     "C13": dict(
         text="Decides coverage/symmetry of the values_equal variant-pair table (diagonal explicit, off-diagonal false, binaries by content for all "
              "representation pairs, tuples by canonical shape), the single minting site and advancing counter of refs, worker-id plumbing, "
